@@ -140,7 +140,8 @@ fn enum_match(_t: Tier, shard: usize, n: usize, f: &mut dyn FnMut(MatchIn) -> bo
     for code in match_codes() {
         for shape in 0..3u8 {
             for class in CLASSES {
-                for origin in 0..4u8 {
+                // origins 4..8: the same four with the cache-flush bit set (class field 0x8000 | class on the wire)
+                for origin in 0..8u8 {
                     i += 1;
                     if mine(i, shard, n) && !f((code, shape, class, origin)) {
                         return;
@@ -178,9 +179,11 @@ fn check_opt_record(class: u16, case: &mut Case) -> Result<(), Fail> {
 
 fn check_match(input: &MatchIn, case: &mut Case) -> Result<(), Fail> {
     let (code, shape, class, origin) = *input;
+    let flush = origin >= 4;
+    let origin = origin % 4;
     case.nontrivial = true;
     if code == 41 {
-        return if shape == 0 && origin == 0 { check_opt_record(class, case) } else { Ok(()) };
+        return if shape == 0 && origin == 0 && !flush { check_opt_record(class, case) } else { Ok(()) };
     }
     let rdata = if shape == 1 {
         ARData::Empty { code }
@@ -198,6 +201,7 @@ fn check_match(input: &MatchIn, case: &mut Case) -> Result<(), Fail> {
     };
     let mut rec = record_of(rdata);
     rec.class = class;
+    rec.cache_flush = flush;
     let ap = packet_with_answer(rec.clone());
     let wire = encode_message(&ap, &EncOpts::plain());
     let built;
@@ -218,7 +222,10 @@ fn check_match(input: &MatchIn, case: &mut Case) -> Result<(), Fail> {
     } else {
         rr
     };
-    case.class(format!("origin{}", origin));
+    case.class(format!("origin{}{}", origin, if flush { "-flush" } else { "" }));
+    // class and cache-flush bit are separate things
+    ensure!(Some(rr.class) == class_of(class).ok(), "c18:class", "record of class {} (cache-flush {}) reports class {:?}", class, flush, rr.class);
+    ensure!(rr.cache_flush == flush, "c18:cache-flush", "record with cache-flush {} reports {}", flush, rr.cache_flush);
     // reported type
     let tc = lib("type_code", || rr.rdata.type_code())?;
     ensure!(tc == TYPE::from(code), "c18:type-code", "record of wire type {} reports {:?}, TYPE::from gives {:?}", code, tc, TYPE::from(code));
@@ -245,10 +252,62 @@ fn check_match(input: &MatchIn, case: &mut Case) -> Result<(), Fail> {
     Ok(())
 }
 
+/// records obtained by parsing anything the parser accepts (mutated encodings): the reported type is the wire TYPE
+/// field of that entry, and matching follows it
+fn check_parsed_types(input: &super::c01::Mutated, case: &mut Case) -> Result<(), Fail> {
+    let bytes = super::c01::render_mutated(input);
+    let Ok(p) = parse(&bytes)? else {
+        case.class("rejected");
+        return Ok(());
+    };
+    let Ok(w) = walk(&bytes) else {
+        case.class("walker-fails:no-claim");
+        return Ok(());
+    };
+    case.class("accepted");
+    let mut lifted_opt = p.opt().is_some();
+    for (sec, recs) in [(0usize, &p.answers), (1, &p.name_servers), (2, &p.additional_records)] {
+        let mut wire: Vec<&WRecord> = w.section(sec).collect();
+        if sec == 2 && lifted_opt {
+            if let Some(i) = wire.iter().position(|r| r.rtype == 41) {
+                wire.remove(i);
+                lifted_opt = false;
+            }
+        }
+        if wire.len() != recs.len() {
+            // counts are C05's / C08's business
+            case.class("count-differs:no-claim");
+            return Ok(());
+        }
+        for (wr, rr) in wire.iter().zip(recs.iter()) {
+            case.nontrivial = true;
+            let tc = lib("type_code", || rr.rdata.type_code())?;
+            ensure!(u16::from(tc) == wr.rtype && tc == TYPE::from(wr.rtype), "c18:type-code-parsed", "an entry with TYPE field {} is reported as {:?}; message {}", wr.rtype, tc, hex(&bytes[..bytes.len().min(120)]));
+            if wr.rtype != 41 {
+                let own = lib("match_qtype", || rr.match_qtype(QTYPE::TYPE(TYPE::from(wr.rtype))))?;
+                ensure!(own, "c18:match-qtype-parsed", "a parsed record of TYPE {} does not match a question for its own type", wr.rtype);
+                let mailb = lib("match_qtype", || rr.match_qtype(QTYPE::MAILB))?;
+                ensure!(mailb == [7u16, 8, 9].contains(&wr.rtype), "c18:match-qtype-parsed", "a parsed record of TYPE {} vs MAILB: {}", wr.rtype, mailb);
+                let null = lib("match_qtype", || rr.match_qtype(QTYPE::TYPE(TYPE::NULL)))?;
+                ensure!(null == (wr.rtype == 10), "c18:match-qtype-parsed", "a parsed record of TYPE {} vs a NULL question: {}", wr.rtype, null);
+                let cls = wr.class_raw & 0x7fff;
+                if let Ok(c) = class_of(cls) {
+                    ensure!(rr.class == c, "c18:class-parsed", "an entry with CLASS field {:#06x} is reported as class {:?}", wr.class_raw, rr.class);
+                    for qc in [1u16, 3, 255] {
+                        let got = lib("match_qclass", || rr.match_qclass(qclass_of(qc).unwrap()))?;
+                        ensure!(got == (qc == 255 || qc == cls), "c18:match-qclass-parsed", "an entry with CLASS field {:#06x} vs question class {}: {}", wr.class_raw, qc, got);
+                    }
+                }
+            }
+        }
+    }
+    Ok(())
+}
+
 pub fn def() -> CheckDef {
     CheckDef {
         id: "C18",
-        rule: "exhaustive: all 65536 codes through TYPE/QTYPE/CLASS/QCLASS conversions against an independently typed IANA table; (record type: 40 supported + NULL + 9 unknown codes) x {content, empty, catch-all NULL variant carrying the code} x 5 classes x {constructed, parsed, owned copy of each} x (41 named question types + ANY + MAILB + own unknown type) and x 6 question classes. Non-trivial = supported/special/low code; every matching case",
+        rule: "exhaustive: all 65536 codes through TYPE/QTYPE/CLASS/QCLASS conversions against an independently typed IANA table; (record type: 40 supported + NULL + 9 unknown codes) x {content, empty, catch-all NULL variant carrying the code} x 5 classes x {constructed, parsed, owned copy of each} x {cache-flush bit clear, set} x (41 named question types + ANY + MAILB + own unknown type) and x 6 question classes. Plus, proptest: mutated reference encodings (as C01/C11) that the parser accepts: every parsed record reports the TYPE and CLASS field of its wire entry (located by the independent envelope walker) and matches its own type, MAILB, a NULL question and question classes accordingly. Non-trivial = supported/special/low code; every matching case",
         assumptions: vec![
             "IANA RR TYPE registry values typed into checks/c18.rs",
             "the statement is silent on MAILA/AXFR/IXFR matching; not checked",
@@ -256,6 +315,7 @@ pub fn def() -> CheckDef {
         sections: vec![
             Box::new(EnumSection { name: "codes", rule: "all 16-bit codes", enumerate: enum_codes, check: check_code, exhaustive: true }),
             Box::new(EnumSection { name: "matching", rule: "full record x question matrices", enumerate: enum_match, check: check_match, exhaustive: true }),
+            Box::new(PropSection { name: "parsed-types", rule: "type and class of records parsed from mutated encodings", strategy: super::c01::mutated_strategy, cases: (150_000, 1_500_000), check: check_parsed_types }),
         ],
     }
 }
